@@ -513,6 +513,22 @@ class Engine:
         raise OutOfSubset(f"==: {a} / {b}")
 
     def e_Subscript(self, e, st):
+        if isinstance(e.slice, ast.Slice):
+            sl = e.slice
+            bounds = []
+            for b in (sl.lower, sl.upper, sl.step):
+                if b is None:
+                    bounds.append(None)
+                elif isinstance(b, ast.Constant) and isinstance(b.value, int):
+                    bounds.append(b.value)
+                else:
+                    raise OutOfSubset("non-constant slice", e)
+            out = []
+            for s, recv in self.eval(e.value, st):
+                if not isinstance(recv, (Lst, Tup)):
+                    raise OutOfSubset(f"slice of {type(recv).__name__}", e)
+                out.append((s, Lst(list(recv.items[slice(*bounds)]), self.new_ref())))
+            return out
         out = []
         for s, vs in self.eval_seq([e.value, e.slice], st):
             out.extend(self.subscript(s, vs[0], vs[1], e))
